@@ -63,6 +63,15 @@ def chain_instances(model, tier):
             out.append((("Multiply", [x, x, f]), f"Multiply(repeated factor, {k})"))
             if k in ("Logarithm", "Reciprocal", "NthRoot"):
                 out.append(((k, ("Multiply", [x, x, y])) + f[2:], f"{k}(product with repeated factor)"))
+    # sums / products of two nodes of one parameterised class with different parameters (one negated or
+    # inverted), kept alive in the derivative by a separate factor
+    w = ("Variable", "w")
+    for k, (p1, p2) in (("Logarithm", (2, 10)), ("Logarithm", (E, 2)), ("Exponential", (2, 10)), ("NthRoot", (2, 3))):
+        if k in names and "Add" in names and "Multiply" in names:
+            a_, b_ = (k, x, p1), (k, y, p2)
+            out.append((("Multiply", [w, ("Add", [a_, ("Negation", b_)])]), f"{k}(difference, different parameters)"))
+            out.append((("Multiply", [w, ("Minus", a_, b_)]), f"{k}(difference, different parameters)"))
+            out.append((("Sine", ("Multiply", [a_, ("Reciprocal", b_)])), f"{k}(quotient, different parameters)"))
     if "NthRoot" in names and "NthPower" in names:
         for (m, n) in ((2, 2), (2, 4), (4, 2), (3, 2), (2, 3), (3, 3)):
             par = lambda k: "even" if k % 2 == 0 else "odd"
